@@ -23,6 +23,7 @@ Request:
   {"op":"attr","names":[..],"fx":bool,"nk":bool,"expr":E,"ops":[O..]}   attribute access on one variable, in order:
     O = {"get":s} -> {"r":V}|{"e":..}   {"set":s,"v":V} -> {"r":null}   {"item":i} -> {"r":k,"vc":D}|{"e":..}
       | {"call":value} -> {"d":..,"c":D}|{"e":..}   {"vc":true} -> {"vc":D}
+      | {"vcn":true} -> {"vc":D}: the var_context of a top-level Compose under `mkComposeN` (patched name keyword)
     -> {"r":[..]} | {"e":..,"phase":"init"}
   {"op":"tok","names":[..],"fx":bool,"nk":bool,"expr":E,"val":value,"reps":k}   token model (Model/C14Tok.lean):
     the objects of the variable's var_context, then of the value's context are numbered in pre-order (`labelT`);
@@ -225,6 +226,17 @@ def handle (j : Json) : Json :=
                   | .ok (d, c) => Json.mkObj [("d", ofData d), ("c", ofD c)]
                   | .error er => Json.mkObj [("e", errName er)]])
               | none => (v, out ++ [err "bad call value"])
+            else if !(getD o "vcn").isNull then
+              -- the var_context `Compose` would have with notes/C14_defect_2.patch (`mkComposeN`), whatever the tree does
+              (v, out ++ [match e with
+                | .compose args kw =>
+                  match evalArgs names fx nk Data.tuple args with
+                  | .ok as =>
+                    match mkComposeN names fx as kw with
+                    | .ok c => Json.mkObj [("vc", ofD c.varCtx)]
+                    | .error er => Json.mkObj [("e", errName er)]
+                  | .error er => Json.mkObj [("e", errName er)]
+                | _ => Json.mkObj [("vc", ofD v0.varCtx)]])
             else (v, out ++ [Json.mkObj [("vc", ofD v.varCtx)]])
         let (_, out) := ops.toList.foldl step (v0, [])
         Json.mkObj [("r", Json.arr out.toArray)]
@@ -261,7 +273,7 @@ def handle (j : Json) : Json :=
                 go k r.next (some (r.ctxTok, r.ctx))
                   (acc ++ [Json.mkObj [("c", ofTV (.dict r.ctxTok r.ctx)), ("w", ofList ofNat r.writes), ("next", ofNat r.next),
                                        ("sep", Json.bool sep), ("spine", ofList ofNat spine),
-                                       ("erased", ofD (eraseS r.ctx))]])
+                                       ("ctoks", ofList ofNat (ctxTokens ctx)), ("erased", ofD (eraseS r.ctx))]])
           let steps := go reps next ctx []
           -- the same iteration through `callsT` (the definition the iteration theorem is about)
           let viaCalls := (callsT names fx vt vc reps next ctx).map
